@@ -17,7 +17,8 @@ EXPLANATION = (
     'condition; (C10.3) AND/OR, partially evaluated on recording thunks for short sequences of truth values, blanks and '
     'array members: thunks are called left to right, none after the decisive one, and the only elements skipped are blanks; NOT negates the truth value of its single thunk; (C10.4) defaults of thunk '
     'parameters are callable Expr objects (validate_args does not convert defaults); (C10.5) the result of every thunk call '
-    'in IF/AND/OR/NOT is tested for being an error value before its truth value is taken.')
+    'in IF/AND/OR/NOT is tested for being an error value before its truth value is taken.'
+    ' (C10.2) also on value-class instances (0, FALSE, blank and the empty text select the else-branch); (C10.6) a failed branch evaluation leaves no trace on the evaluator (shared with C06.2).')
 NOT_DECIDED = 'truth tables over concrete values and blanks'
 TRUSTED = ['inspect.signature binding model of FunctionNode.eval']
 
